@@ -430,8 +430,30 @@ def hidden_interface_pages(P):
     return out
 
 
+def _has_iface_function_of_type(P):
+    """Is there, anywhere in the generated project, a function dictionary with a derived-type `rtype` that is rendered as
+    an interface body (it sits in a list that is not `procs` / `internal` of a program unit)?"""
+    found = []
+
+    def walk(x, key):
+        if isinstance(x, dict):
+            if x.get("kind") == "function" and x.get("rtype") not in (None, "integer") and key not in ("procs", "internal", "units"):
+                found.append(x["name"])
+            for k, v in x.items():
+                walk(v, k)
+        elif isinstance(x, list):
+            for v in x:
+                walk(v, key)
+
+    walk(P["files"], "files")
+    return bool(found)
+
+
 def project_features(P):
-    feat = {"module_namelist": False, "localtype": False, "bound": False, "generic_modproc": False, "constructor": False}
+    feat = {"module_namelist": False, "localtype": False, "bound": False, "generic_modproc": False, "constructor": False,
+            # a function whose interface is given by an interface body (interface block, abstract interface, separate module
+            # procedure interface, anywhere) and whose declared result type is a derived type
+            "iface_function_of_type": _has_iface_function_of_type(P)}
     for f in P["files"]:
         for u in f["units"]:
             if u["kind"] == "module":
@@ -505,6 +527,10 @@ def classify(fail, ctx):
             return "C09-entity-str-without-relurl"
         if feat["constructor"] and fail.get("in_constructor_row"):
             return "C09-entity-str-without-relurl"
+    if why == "absolute path" and url.startswith(ctx["out"] + "/type/") and page.startswith("interface/") and fail.get("in_iface_retval") \
+            and fail.get("q") == "'" and feat.get("iface_function_of_type"):
+        # the derived type of the result of a function given by an interface body, in the "Return Value" heading of its page
+        return "C09-interface-result-type-without-relurl"
     if missing and page.startswith("page/") and "/" in path and not path.startswith("../") \
             and path.split("/", 1)[0] in ctx.get("abs_copy_items", {}).get(page, []):
         # a relative link into a directory that the *project-wide* `copy_subdir` setting names, on a static page whose
@@ -874,6 +900,9 @@ def run_site(args):
             f["after_arrow"] = re.search(r"=(?:>|&gt;)\s*(?:" + item + r",\s*)*<a href='" + re.escape(f["url"]) + "'", ctx3) is not None
             # `<proctype> <strong>{{ proc }}</strong>` in the constructor table of a type summary
             f["in_constructor_row"] = re.search(r"(?:function|subroutine)\s*<strong><a href='" + re.escape(f["url"]) + "'", ctx3) is not None
+            # `<h3>Return Value <span ..></span><small>type(<a href='..'>t</a>)` on the page of an interface body (nongenint_page.html)
+            f["in_iface_retval"] = re.search(r"<h3>Return Value\s*<span class=\"anchor\" id=\"[^\"]*\"></span><small>\s*(?:type|class)\(<a href='"
+                                             + re.escape(f["url"]) + "'", ctx3) is not None
             # is the link inside the documentation of a type local to a procedure?
             f["in_localtype_doc"] = any("local type" in x or "component" in x or "local interface" in x
                                         for x in lines[max(0, ln - 1):ln]) if lines else False
